@@ -785,11 +785,9 @@ def rule_e12(ctx, rule_id: str = "C07-E12") -> None:
     prog = ctx.prog
     f = prog.func(CARBON_PROC)
     splits = []
-    for n in own_nodes(f.node):
-        if isinstance(n, (ast.GeneratorExp, ast.ListComp)):
-            it = n.generators[0].iter
-            if isinstance(it, ast.Call) and isinstance(it.func, ast.Attribute) and it.func.attr == "split" and it.args and const_str(it.args[0]) == "." and isinstance(it.func.value, ast.Name):
-                splits.append((n, it.func.value.id))
+    for it in own_nodes(f.node):
+        if isinstance(it, ast.Call) and isinstance(it.func, ast.Attribute) and it.func.attr == "split" and it.args and const_str(it.args[0]) == "." and isinstance(it.func.value, ast.Name):
+            splits.append((it, it.func.value.id))
     ctx.require(splits, "process_reaction no longer splits the sides at '.'")
 
     def whole_parse(call) -> bool:
